@@ -3,7 +3,7 @@
 # /tmp/wt-<property>: applies, builds, the 77 tests pass, the demo fails with it and passes on pristine /repo;
 # then files it under /verif/seeded/<name>/ with what was run.
 set -u
-prop="$1"; dir="$2"; name="$3"; wt="/tmp/wt-$prop"
+prop="$1"; dir="$2"; name="$3"; wt="${WT:-/tmp/wt-$prop}"
 log=/tmp/confirm-$name.log
 {
 cd "$wt" && git checkout -q -- . && git apply "$dir/patch.diff" || { echo "APPLY-FAILED"; exit 3; }
